@@ -845,6 +845,14 @@ def reach_with_flags(cfg, start_ids, avoid=(), exc=False, env=None):
                     if isinstance(tv, bool) and not isinstance(a.value, ast.Name):
                         envd[a.targets[0].id] = tv
                         envd[f'{a.targets[0].id} is None'] = False
+            elif len(a.targets) == 1 and isinstance(a.targets[0], ast.Tuple) and isinstance(a.value, ast.Tuple) \
+                    and len(a.targets[0].elts) == len(a.value.elts) and not any(isinstance(e, ast.Starred) for e in a.value.elts):
+                # `err, accepted = e, False`: the literals among the elements bind their names
+                for tg, v in zip(a.targets[0].elts, a.value.elts):
+                    tv = _literal_truth(v)
+                    if isinstance(tg, ast.Name) and tv is not None:
+                        envd[tg.id] = tv
+                        envd[f'{tg.id} is None'] = isinstance(v, ast.Constant) and v.value is None
         elif t.kind == 'handler' and isinstance(a, ast.ExceptHandler) and a.name:
             envd[a.name] = True                 # `except E as err:` - err is an exception object
             envd[f'{a.name} is None'] = False
